@@ -134,7 +134,7 @@ SCENARIO_TIMEOUT = 300
 def scenarios(tier, seed):
     n = 6 if tier == "quick" else 12
     return [{"kind": "colander", "seed": seed * 1000 + 100 + i, "ndims": 3 if i % 2 == 0 else 2,
-             "nf": [4, 3, 6, 2][i % 4], "nlevels": [2, 3, 1][i % 3], "nfiles": [2, 3, 1, 4][i % 4],
+             "nf": [4, 3, 12, 2, 11, 6][i % 6], "wide_floats": True, "nlevels": [2, 3, 1][i % 3], "nfiles": [2, 3, 1, 4][i % 4],
              "layout": ["shuffled", "roundrobin", "shuffled", "monotone"][i % 4],
              "box_sizes": [8, 16] if i % 3 == 1 else None, "ncombos": 3 if tier == "quick" else 6,
              "ref_line_extra": i % 2} for i in range(n)]
